@@ -751,6 +751,10 @@ def evaluate(ctx, exe, mexe, cases, stats, structural=True):
                                         "proved under (%s)" % " ".join(g[2:]))
                     continue
                 mrows = take("CQ ", int(g[2]))
+                if "audit=0" in g:
+                    # the theorem's audited hypothesis fails for this (tree, k): no claim from the proof here, the
+                    # completeness of the real candidate lists is still checked directly (cand_complete_b above)
+                    stats["ct_audit_false"] = stats.get("ct_audit_false", 0) + 1
                 if cq is not None:
                     real = {q: sorted(cs) for q, cs in cq}
                     for line in mrows:
